@@ -64,7 +64,7 @@ Definition flush (s : st) (o : out) (i : nat) : out :=
   match s with
   | Start | InComment => o
   | InWord st0 rt => emit o st0 i (classify_word (rev rt))
-  | InNum st0 z => emit o st0 i (TLit z)
+  | InNum st0 z => emit o st0 i (TNum z)
   | InPend st0 _ alone => emit o st0 (st0 + 1) (TK alone)
   end.
 
